@@ -172,6 +172,26 @@ def op_negotiate(rng):
             f"dr={script(rng)} dw={script(rng)} lr={script(rng)} lw={script(rng)} order={order}")
 
 
+REF_NAMES = [n for n in BASE if valid_name(n)] + [b"/" + b"N" * 300, b"/" + b"L" * (MAX_FRAME - 2)]
+
+
+def op_refneg(rng):
+    """The real litep2p dialer (listener) against the listener (dialer) of the reference implementation
+    multistream-select 0.13.0 over the same scripted duplex. Names are valid UTF-8 names (the reference takes strings)."""
+    role = rng.choice(["dial", "listen"])
+    ver = rng.choice(["v1", "lazy"])
+    pick = lambda: rng.choice(REF_NAMES[:11]) if rng.random() < 0.85 else rng.choice(REF_NAMES)
+    dialer = [pick() for _ in range(rng.randrange(1, 5))]
+    listener = [pick() for _ in range(rng.randrange(0, 5))]
+    if rng.random() < 0.5:
+        listener.insert(rng.randrange(len(listener) + 1), rng.choice(dialer))
+    if rng.random() < 0.15:
+        dialer = dialer + [rng.choice(dialer)]
+    order = "".join(rng.choice("dl") for _ in range(rng.randrange(1, 12)))
+    return (f"refneg role={role} ver={ver} dialer={hl(dialer)} listener={hl(listener)} dpay={hx(payload(rng))} "
+            f"lpay={hx(payload(rng))} dr={script(rng)} dw={script(rng)} lr={script(rng)} lw={script(rng)} order={order}")
+
+
 def op_scripted(rng):
     """Our side against a raw peer: a well-formed transcript (plus trailing application bytes), or a damaged one."""
     role = rng.choice(["dial", "listen"])
@@ -392,6 +412,8 @@ def gen_case(rng):
     k = rng.random()
     if k < 0.06:
         return ops_report(rng)
+    if k < 0.20:
+        return [op_refneg(rng) for _ in range(rng.randrange(1, 3))]
     if k < 0.45:
         return [op_negotiate(rng) for _ in range(rng.randrange(1, 3))]
     if k < 0.65:
@@ -413,6 +435,9 @@ def corpus():
         [f"negotiate ver=v1 dialer=- listener={hl([a])}"],
         [f"wpair main={hx(a)} fb={hl([b, c])} sup={hl([c])} split=5"],
         [f"report protos={show_installed([(a, [b, c]), (ab, [])])} neg={hx(n)}" for n in (c, a, ab, b"/zz")],
+        [f"refneg role={r} ver={v} dialer={hl([a, b])} listener={hl([b, c])} dpay=0102 lpay=0304 dr={one} dw={one} lr={one} lw={one} order=dl"
+         for r in ("dial", "listen") for v in ("v1", "lazy")],
+        [f"refneg role={r} ver={v} dialer={hl([a])} listener={hl([b, c])} dpay=ff lpay=0304" for r in ("dial", "listen") for v in ("v1", "lazy")],
     ]
 
 
@@ -484,7 +509,7 @@ def oracle(case, out):
             v("panic", f"panic in {t[0]}: {o[:200]}", i)
             break
         a = kvs(t[1:])
-        if t[0] == "negotiate":
+        if t[0] in ("negotiate", "refneg"):
             r = kvs(o.split())
             dialer, listener = unhl(a.get("dialer", "-")), unhl(a.get("listener", "-"))
             dpay, lpay = a.get("dpay", "-"), a.get("lpay", "-")
@@ -506,7 +531,7 @@ def oracle(case, out):
             else:
                 if a.get("ver") == "lazy" and first_frame_is_message(unhx(dpay)):
                     continue        # documented V1Lazy pitfall, outside the property
-                if not (r.get("d", "").startswith("err:") and r.get("l", "").startswith("err:")):
+                if not (r.get("d", "").startswith("err") and r.get("l", "").startswith("err")):
                     v("disagree", f"no common name: dialer reports {r.get('d')}, listener {r.get('l')}", i)
         elif t[0] in ("dial", "listen"):
             r = kvs(o.split())
@@ -589,9 +614,12 @@ def stats(case, out, acc):
     for op, o in zip(case, out):
         t = op.split()
         bump(acc, "op:" + t[0])
-        if t[0] == "negotiate":
+        if t[0] in ("negotiate", "refneg"):
             r = kvs(o.split())
             a = kvs(t[1:])
+            if t[0] == "refneg":
+                bump(acc, f"refneg:litep2p-{a.get('role')}:{a.get('ver')}:d={r.get('d', '?')[:3]}:l={r.get('l', '?')[:3]}")
+                continue
             bump(acc, f"negotiate:{a.get('ver')}:d={r.get('d', '?')[:3]}:l={r.get('l', '?')[:3]}")
             for k in ("dr", "dw", "lr", "lw"):
                 s = a.get(k, "-")
